@@ -206,7 +206,7 @@ func RunHarness(l *Loaded, fn *ssa.Function, cfg HarnessConfig) (res *HarnessRes
 			res.Panicked++
 			// an uncaught panic in the harness is a failed obligation if reachable
 			e.CurHarness = fn.Name()
-			msg := e.describe(o.St, o.Pan)
+			msg := e.describe(o.St, o.Pan) + " at " + shortPath(o.Why)
 			e.addObligation(o.St, "assert", "no-uncaught-panic: "+truncate(msg, 160), e.TS.Bool(false))
 		case OutError:
 			res.Errors = append(res.Errors, o.Why)
